@@ -7,7 +7,8 @@ RULE = ("one server; 5 records (two users, a third sharing the first one's passw
         "sessions (one with a wrong password); server sessions = (request, record, credential id) triples; every response routed "
         "to every pending client session; every finalization to every pending server session (thorough: all routings; quick: a "
         "seeded sample of server sessions). Oracle: acceptance exactly on matched conversations, key agreement, pairwise distinct "
-        "session keys. distinct = distinct (suite, op, args)")
+        "session keys; pending client and server sessions wait in a store (native bytes, serde-bincode, serde-json) between "
+        "steps. distinct = distinct (suite, op, args)")
 EXHAUSTIVE = {"quick": False, "thorough": True}
 ASSUMPTIONS = ["matched-conversation theorem holds up to explicit collision / freshness events (Bad)"]
 
@@ -22,6 +23,8 @@ def routing(ctx, sample, shape=0):
     users = {"u1": (b"pw-one", C1), "u2": (b"pw-two", C2), "u3": (b"pw-one", C3)}
     # identity shape used consistently by every party of this run: {absent, explicit}^2
     EXPL, IDS = [(False, None), (True, None), (False, b"server-id"), (True, b"server-id")][shape % 4]
+    # pending sessions wait in a session store between steps: native bytes, serde-bincode or serde-json
+    STORE = ["native", "bincode", "json"][(shape // 4 + shape) % 3]
     # an explicit client identity is per user: the server looks it up by credential identifier, the client uses its own
     idu_of = lambda user: (b"client-of-" + user.encode()) if EXPL else None
     user_of_cred = {C1: "u1", C2: "u2", C3: "u3"}
@@ -34,7 +37,7 @@ def routing(ctx, sample, shape=0):
     clients = {}   # name -> (state, request, pw)
     for name, pw in (("c1", b"pw-one"), ("c2", b"pw-two"), ("c3-wrong", b"pw-zzz"), ("c4", b"pw-one")):
         r = ctx.call("login_start", ctx.btape(L.Nsk + 64), pw)
-        clients[name] = (r.b(0), r.b(1), pw)
+        clients[name] = (persist(ctx, "ClientLogin", r.b(0), STORE), r.b(1), pw)
     ctx.counting = True
     creds = [C1, C2, C3]
     sessions = list(itertools.product(sorted(clients), sorted(records), creds))
@@ -47,7 +50,7 @@ def routing(ctx, sample, shape=0):
     for (c, rec, cred) in sessions:
         r = ctx.call("srv_login_start", ctx.tape(L.Nh + 64 + L.Nsk + 16), setup, records[rec][0], clients[c][1], cred, None, idu_of(user_of_cred[cred]), IDS)
         if ctx.expect(r.ok, "server session starts"):
-            srv[(c, rec, cred)] = (r.b(0), r.b(1))
+            srv[(c, rec, cred)] = (persist(ctx, "ServerLogin", r.b(0), STORE), r.b(1))
     # every response to every pending client
     fins = {}      # (client, server session) -> (ke3, key)
     keys = []
@@ -87,5 +90,5 @@ def routing(ctx, sample, shape=0):
 
 
 def cases(tier, seed):
-    return [dict(cross=["login_finish", "srv_login_finish", "srv_reg_start"], cross_limit=60, script=routing, suite=s, seed=seed * 1000 + i, mode="pattern", params=dict(sample=(0 if tier == "thorough" else 10), shape=i + seed + k))
+    return [dict(cross=["login_finish", "srv_login_finish", "srv_reg_start"], cross_limit=60, script=routing, suite=s, seed=seed * 1000 + i, mode="pattern", params=dict(sample=(0 if tier == "thorough" else 10), shape=i + seed + k + 1))
             for i, s in enumerate(suites_for(tier, seed)) for k in (range(4) if tier == "thorough" else range(1))]
